@@ -83,7 +83,7 @@ func checkC01(w *core.W, c *ParseCase) {
 	}
 	var sc *formula.SourceCode
 	var err error
-	panicked, pv := core.Call(func() { sc, err = formula.ParseSourceCode(src) })
+	panicked, pv := core.Call(func() { sc, err = hostParse(src, true) })
 	obs.SetHook(nil)
 	viol := func(sig string, exp, got interface{}, detail string) {
 		w.Violation("parse-total", "C01/"+sig, c, exp, got, detail+" input="+c.Quoted())
@@ -271,7 +271,7 @@ type StableCase struct {
 func parseOutcome(src []byte) string {
 	var sc *formula.SourceCode
 	var err error
-	panicked, pv := core.Call(func() { sc, err = formula.ParseSourceCode(src) })
+	panicked, pv := core.Call(func() { sc, err = hostParse(src, true) })
 	switch {
 	case panicked:
 		return "PANIC " + fmt.Sprint(pv)
